@@ -95,6 +95,19 @@ func (x *Exec) enterLoopHeader(cfg *Config, f *Frame, from, to *ssa.BasicBlock, 
 	}
 	// havoc loop-modified state
 	mods, all := x.loopModSet(to)
+	lockHavoc := false
+	if mods["$locks"] {
+		delete(mods, "$locks")
+		// cond.Wait / Lock in the body: if the only mutexes involved are the
+		// ones already held here (cond.Wait requires its mutex to be held),
+		// havoc exactly what their invariants protect; a Lock of another
+		// mutex inside the body falls back to whole arrays.
+		if len(cfg.heldLocks) > 0 && !x.bodyLocks(to) {
+			lockHavoc = true
+		} else {
+			x.lockMods(mods)
+		}
+	}
 	if spec != nil {
 		for _, m := range spec.Modifies {
 			mods[m] = true
@@ -121,6 +134,12 @@ func (x *Exec) enterLoopHeader(cfg *Config, f *Frame, from, to *ssa.BasicBlock, 
 		}
 		x.pendingHavoc(st, mods, ord)
 	}
+	if lockHavoc {
+		for _, h := range cfg.heldLocks {
+			x.havocLock(cfg, h.ld, h.o)
+		}
+		x.interfere(cfg)
+	}
 	if mods["$top"] || all {
 		ntop := x.d.Fresh("top", SInt)
 		st.assume(Ge(ntop, x.top(st)))
@@ -129,6 +148,24 @@ func (x *Exec) enterLoopHeader(cfg *Config, f *Frame, from, to *ssa.BasicBlock, 
 	for _, p := range phis {
 		v := x.symbolicOf(st, x.d.Fresh(fmt.Sprintf("L%d!%s", ord, sanitize(p.Comment)), SInt).S, p.Type())
 		f.regs[p] = v
+	}
+	if x.c != nil && x.c.Options["old"] == "section" {
+		// the section-start snapshot is loop-carried state too
+		cfg.old = cfg.st.clone()
+		for _, name := range sortedKeys(cfg.old.heap) {
+			if strings.HasPrefix(name, "$") {
+				continue
+			}
+			if all || mods[name] || mods[strings.SplitN(name, "!len", 2)[0]] || mods[strings.SplitN(name, "!at", 2)[0]] {
+				cfg.old.heap[name] = x.d.Fresh(fmt.Sprintf("L%dold!%s", ord, name), cfg.old.heap[name].Sort)
+			}
+		}
+		if lockHavoc {
+			tmp := &Config{st: cfg.old, old: cfg.old, frames: cfg.frames}
+			for _, h := range cfg.heldLocks {
+				x.havocLock(tmp, h.ld, h.o)
+			}
+		}
 	}
 	le := &loopEntry{header: to}
 	cfg.loops = append(cfg.loops, le)
@@ -146,6 +183,7 @@ func (x *Exec) enterLoopHeader(cfg *Config, f *Frame, from, to *ssa.BasicBlock, 
 			le.decInit = x.specTerm(env, spec.Decreases.E)
 			le.hasDec = true
 		}
+		x.canary(cfg, fmt.Sprintf("loop%d-invariant-satisfiable", ord), to.Instrs[0].Pos())
 	}
 	return true
 }
@@ -272,10 +310,70 @@ func (x *Exec) loopModSet(h *ssa.BasicBlock) (map[string]bool, bool) {
 	return mods, all
 }
 
+// bodyLocks: does the loop body acquire a mutex directly (Lock call)?
+func (x *Exec) bodyLocks(h *ssa.BasicBlock) bool {
+	for b := range x.loops.body[h] {
+		for _, in := range b.Instrs {
+			ci, ok := in.(ssa.CallInstruction)
+			if !ok {
+				continue
+			}
+			common := ci.Common()
+			name := ""
+			if common.IsInvoke() {
+				name = "iface:" + ifaceKey(common.Value.Type(), common.Method.Name())
+			} else if fn := common.StaticCallee(); fn != nil {
+				name = ssaFullName(fn)
+				if name == "github.com/tychoish/fun/adt.Lock" {
+					return true
+				}
+			}
+			if strings.HasSuffix(name, ".Lock") || strings.HasSuffix(name, ".RLock") {
+				return true
+			}
+		}
+	}
+	return false
+}
+
 func (x *Exec) modelMods(mods map[string]bool) {
 	mods["$held"] = true
+	mods["$rheld"] = true
 	mods["$epoch"] = true
 	mods["$top"] = true
+	// Lock / cond.Wait let other goroutines run: everything any lock
+	// invariant declares as havocked may change
+	mods["$locks"] = true
+}
+
+// lockMods adds (whole-array) everything any lock invariant havocs.
+func (x *Exec) lockMods(mods map[string]bool) {
+	for _, ld := range x.P.lockDecls() {
+		c := &FuncContract{Pkg: ld.pkg, Key: "lockhavoc " + ld.strct + "." + ld.field}
+		for _, h := range ld.havoc {
+			x.modEntryArrays(c, nil, x.retypeRecv(ld, h), mods)
+		}
+	}
+}
+
+// retypeRecv rewrites the receiver name of a lock declaration into a typed
+// expression so that modifies entries resolve without a state.
+func (x *Exec) retypeRecv(ld *lockDecl, e Expr) Expr {
+	switch ee := e.(type) {
+	case EIdent:
+		if ee.Name == ld.recv {
+			return ECall{Fn: "cast", Args: []Expr{ee, EStr{"*" + ld.strct}}}
+		}
+	case EField:
+		return EField{X: x.retypeRecv(ld, ee.X), Name: ee.Name}
+	case ECall:
+		var as []Expr
+		for _, a := range ee.Args {
+			as = append(as, x.retypeRecv(ld, a))
+		}
+		return ECall{Fn: ee.Fn, Args: as}
+	}
+	return e
 }
 
 func (x *Exec) regArr(name string, s Sort) {
